@@ -26,7 +26,7 @@ int windingL(const PtL& p, const Paths64& paths, ld& margin) {
   return w;
 }
 
-struct Interval { ld t0, t1; bool judged; bool in[4][4]; PtL mid; };
+struct Interval { ld t0, t1; bool judged; bool in[4][4]; PtL mid; ld allow0 = 0, allow1 = 0; };
 struct OpenSeg { Point64 a, b; ld len; std::vector<Interval> iv; int crossings = 0; };
 
 ld distPL(const PtL& p, const Point64& a, const Point64& b) { return O::distPtSeg(p.x, p.y, a, b); }
@@ -49,21 +49,28 @@ Verdict judge(const Case& c) {
 
   // reference: cut every open segment at its crossings with closed edges
   std::vector<OpenSeg> segs;
-  ld unjudgedLen = 0;
+  ld unjudgedLen = 0, knownTol = 0;
   int totalCross = 0;
   bool richSeg = false;
   for (auto& os : osegs) {
     OpenSeg s{os.a, os.b, hypotl((ld)os.b.x - os.a.x, (ld)os.b.y - os.a.y), {}, 0};
-    std::vector<ld> ts = {0.0L, 1.0L};
+    // (parameter, allowance): the engine snaps crossings to the integer grid / scanlines, i.e. it moves them by
+    // up to ~2 units PERPENDICULAR to the closed edge, which is 2/sin(angle) ALONG the open segment
+    std::vector<std::pair<ld, ld>> tsa = {{0.0L, 0.0L}, {1.0L, 0.0L}};
     for (auto& cs : csegs)
       if (O::properCross(os.a, os.b, cs.a, cs.b)) {
         i128 den = ((i128)os.b.x - os.a.x) * ((i128)cs.b.y - cs.a.y) - ((i128)os.b.y - os.a.y) * ((i128)cs.b.x - cs.a.x);
         i128 num = ((i128)cs.a.x - os.a.x) * ((i128)cs.b.y - cs.a.y) - ((i128)cs.a.y - os.a.y) * ((i128)cs.b.x - cs.a.x);
-        ts.push_back((ld)num / (ld)den);
+        ld sinA = fabsl((ld)den) / (s.len * hypotl((ld)cs.b.x - cs.a.x, (ld)cs.b.y - cs.a.y));
+        ld allow = 2.0L / sinA + 1.5L;
+        tsa.push_back({(ld)num / (ld)den, allow});
+        knownTol += std::max(3.0L, allow);
         s.crossings++;
       }
     totalCross += s.crossings;
-    std::sort(ts.begin(), ts.end());
+    std::sort(tsa.begin(), tsa.end());
+    std::vector<ld> ts;
+    for (auto& ta : tsa) ts.push_back(ta.first);
     bool anyIn = false, anyOut = false;
     for (size_t k = 0; k + 1 < ts.size(); ++k) {
       Interval iv;
@@ -73,8 +80,10 @@ Verdict judge(const Case& c) {
       iv.mid = {(ld)s.a.x + tm * ((ld)s.b.x - s.a.x), (ld)s.a.y + tm * ((ld)s.b.y - s.a.y)};
       ld margin = 1e30L;
       int ws = windingL(iv.mid, subj, margin), wc = windingL(iv.mid, clip, margin);
-      iv.judged = L > 6.0L && margin > 1e-3L;
-      if (!iv.judged) { unjudgedLen += L; ST.count("intervals_not_judged"); }
+      iv.allow0 = tsa[k].second; iv.allow1 = tsa[k + 1].second;
+      bool shallow = L <= 2 * std::max(iv.allow0, iv.allow1);
+      iv.judged = L > 6.0L && margin > 1e-3L && !shallow;
+      if (!iv.judged) { unjudgedLen += L; ST.count(L > 6.0L && shallow ? "intervals_not_judged_shallow_crossing_KF-C05-a" : "intervals_not_judged"); }
       for (int ci = 0; ci < 4; ++ci)
         for (int fi = 0; fi < 4; ++fi) {
           bool inS = O::filled(FRS[fi], ws), inC = O::filled(FRS[fi], wc);
@@ -163,7 +172,10 @@ Verdict judge(const Case& c) {
           }
         // intervals not judged may be classified wrongly: their whole length goes into the tolerance
         ld tol = 3.0L * totalCross + unjudgedLen + 1e-6L * (ld)m;
-        if (fabsl(solLen - expectLen) > tol) {
+        if (fabsl(solLen - expectLen) > tol && fabsl(solLen - expectLen) <= knownTol + unjudgedLen + 1e-6L * (ld)m) {
+          v.known = "KF-C05-a";
+          ST.count("length_off_by_more_than_3_per_cut_but_within_2_over_sin_angle");
+        } else if (fabsl(solLen - expectLen) > tol) {
           char buf[200];
           snprintf(buf, sizeof buf, "open solution length %.2Lf differs from exact length %.2Lf by more than %.2Lf", solLen, expectLen, tol);
           v.fail(buf + cfg);
